@@ -1,5 +1,5 @@
-CONSTANT Proto <- EnvProto
-CONSTANT Dirs <- EnvDirs
+CONSTANT Protos <- TProtos
+CONSTANT DirSets <- TDirSets
 CONSTANT Docs <- D2
 CONSTANT MaxEdits = 1000000
 CONSTANT MaxStops = 1000000
@@ -22,3 +22,4 @@ INVARIANT CurIsWinner
 INVARIANT TypeOK
 INVARIANT CkptSafe
 INVARIANT SingleWinner
+VIEW cview
